@@ -266,6 +266,8 @@ inductive Bookkeeping where
   | latestDel (cp tag : Bytes)                            -- DEL <latest> (namespace cleanup)
   | rootDel (cp : Bytes)                                  -- DEL <cp> / <cp>:frontier (cleanup)
   | frontierDel (cp : Bytes)                              -- DEL <cp>:frontier (a start that falls back to the root checkpoint drops the snapshot)
+  | markerDel (cp tag : Bytes)                            -- DEL <marker>, ALONE in its DEL (cleanupBisyncNamespace of a retired namespace)
+  | nsDel (cp : Bytes) (keys : List Bytes)                -- DEL <latest / index / journal keys …> of a retired namespace, several per DEL
 
 def Bookkeeping.toCmd : Bookkeeping → Cmd
   | .frontierSave cp fields => ⟨wHset, Gen.frontierKey cp :: fields⟩
@@ -280,6 +282,13 @@ def Bookkeeping.toCmd : Bookkeeping → Cmd
   | .latestDel cp tag => ⟨wDel, [Gen.latestKey cp tag]⟩
   | .rootDel cp => ⟨wDel, [cp, Gen.frontierKey cp]⟩
   | .frontierDel cp => ⟨wDel, [Gen.frontierKey cp]⟩
+  | .markerDel cp tag => ⟨wDel, [Gen.markerKey cp tag]⟩
+  | .nsDel _ keys => ⟨wDel, keys⟩
+
+/-- a control key of namespace `cp` that never carries an expiry: the latest
+    record, the commit index or a journal record of some slot tag -/
+def PlainNsKey (cp k : Bytes) : Prop :=
+  ∃ tag, k = Gen.latestKey cp tag ∨ k = Gen.commitIndexKey cp tag ∨ ∃ seq, k = Gen.commitRecordKey cp tag seq
 
 /-- the checkpoint names the tool generates: `redis-gunyu-checkpoint…`,
     brace-free (`NewBisyncCheckpointName`: prefix + ":" + hex) -/
